@@ -92,6 +92,8 @@ type FileOpts struct {
 	// LongTracks > 0: one track in LongTracks has 1000..6000 events (short payloads, many on the
 	// same tick) instead of at most MaxEvents
 	LongTracks int
+	// ManyAlien > 0: one file in ManyAlien has a gap with 256..1200 tiny alien chunks
+	ManyAlien int
 }
 
 // AllFreedoms is the C02 configuration.
@@ -229,11 +231,25 @@ func File(t *rapid.T, o FileOpts) smfref.File {
 		ntr = rapid.IntRange(1, o.MaxTracks).Draw(t, "nTracks")
 	}
 	f.NTracks = uint16(ntr)
+	crowdedGap := -1
+	if o.Alien && o.ManyAlien > 0 && rapid.IntRange(0, o.ManyAlien-1).Draw(t, "manyAlien?") == 0 {
+		crowdedGap = rapid.IntRange(0, ntr).Draw(t, "crowdedGap")
+	}
+	gap := 0
 	alien := func(where string) {
 		if !o.Alien {
 			return
 		}
 		k := rapid.SampledFrom([]int{0, 0, 0, 1, 1, 2}).Draw(t, "alien-"+where)
+		if gap == crowdedGap {
+			k = rapid.SampledFrom([]int{255, 256, 257, 300, 1200}).Draw(t, "manyAlienChunks")
+			for i := 0; i < k; i++ {
+				f.Chunks = append(f.Chunks, AlienChunk(t, 3))
+			}
+			gap++
+			return
+		}
+		gap++
 		for i := 0; i < k; i++ {
 			f.Chunks = append(f.Chunks, AlienChunk(t, o.MaxAlien))
 		}
